@@ -465,7 +465,11 @@ func TestTables(t *testing.T) {
 	for _, key := range keyPool {
 		for _, in := range inners {
 			for _, sq := range seqs {
-				for _, v := range []ir.Value{ir.Rec(ir.F(key, in)), ir.Set(ir.Rec(ir.F(key, in), ir.F("z", ir.Long(1)))), ir.Rec(ir.F("o", ir.Rec(ir.F(key, in))))} {
+				for _, v := range []ir.Value{ir.Rec(ir.F(key, in)), ir.Set(ir.Rec(ir.F(key, in), ir.F("z", ir.Long(1)))), ir.Rec(ir.F("o", ir.Rec(ir.F(key, in)))),
+					// the exact escape spellings occur elsewhere in the same document: in a sibling that really is an entity / an
+					// extension value, and inside a plain string
+					ir.Rec(ir.F(key, in), ir.F("owner", ir.Ent("U", "alice")), ir.F("limit", ir.Decimal(15000))),
+					ir.Rec(ir.F(key, in), ir.F("s", ir.Str("\"__entity\" \"__extn\"")))} {
 					v := v
 					n++
 					run(&Case{Kind: "value", V: &v, Seq: sq}, "value-table", true, []string{"value:lookalike"}, fail)
